@@ -103,6 +103,13 @@ PLAN["C16"] = {
     "assumptions": ["memory races between two yield points that change no observable result are not visible to a one-at-a-time scheduler (the Go race detector cannot be combined with it)", "porcupine verdict Unknown (time-out) is counted, never reported"],
     "technique": "deterministic simulation: cooperative seeded scheduler over real goroutines parked at lock/yield hooks, recorded history checked for linearizability with porcupine against a sequential reference model",
 }
+PLAN["C15"] = {
+    "parts": [{"engine": "objsim", "quick": 3000, "thorough": 300000}],
+    "nontrivial": "the fetched object had >=2 segments and >=1 segment Data arrived out of order or only after a retransmission",
+    "fault_note": "network faults between consumer and producer: Interest/Data drop (within and beyond the 3-retry budget), delay (incl. beyond the Interest lifetime), duplication; reordering arises from delays; versions published in arbitrary order; name slices with spare capacity; both stores",
+    "components": {"real": ["std/object Client (run loop goroutine, Produce, Consume, round-robin segment fetcher, ExpressR retry)", "std/object MemoryStore and BoltStore (real bbolt file under TMPDIR, removed after the run)", "std/engine/basic Engine x2 with its real Timer on the bubble clock", "std/ndn/rdr_2024 metadata codec"], "stub": ["faces (SimFace)", "the network/forwarder between the two engines (scripted hub)"]},
+    "assumptions": ["a transmission dropped, or delayed to within 10% of the Interest lifetime, costs its name one of four attempts; a fetch may fail only if some name lost four", "faces do not recycle receive buffers (none in the repository does)", "the store interface's Get(prefix) is specified as 'newest Data wire with the given prefix'; names that are both a packet and a prefix of packets are not generated"],
+}
 
 NOT_APPLICABLE = [
     {"property_id": "C03", "reason": "encode->decode round trip is a pure function of the packet value and a byte segmentation: no schedule, clock, fault or shared state for a simulator to own"},
@@ -112,6 +119,7 @@ NOT_APPLICABLE = [
 ]
 
 ENGINES = [
+    {"name": "objsim", "path": "sim/objsim", "serves_properties": ["C15"], "kind_free_text": "real object producer and consumer clients on real engines in one synctest bubble, joined by a scripted lossy/reordering network; differential store histories"},
     {"name": "schedsim", "path": "sim/schedsim", "serves_properties": ["C16"], "kind_free_text": "cooperative seeded scheduler releasing real goroutines one at a time at table-lock yield hooks; porcupine linearizability check"},
     {"name": "mgmtsim", "path": "sim/mgmtsim", "serves_properties": ["C17"], "kind_free_text": "whole forwarder (management thread, internal face, forwarding threads, link services) in one synctest bubble; command histories against a command-level reference model"},
     {"name": "rxsim", "path": "sim/facesim/rx.go", "serves_properties": ["C04"], "kind_free_text": "hostile link (structure-aware corruption) in front of the real forwarder receive path (link service, reassembly, dispatch, forwarding threads) and the application engine"},
